@@ -3,6 +3,10 @@ package vc
 import (
 	"fmt"
 	"go/constant"
+	"io/fs"
+	"os"
+	"path/filepath"
+	"regexp"
 	"sort"
 	"strconv"
 	"strings"
@@ -22,7 +26,7 @@ type StaticDecl struct {
 
 func parseStaticDecl(kind, rest string) (*StaticDecl, error) {
 	sep := "="
-	if kind == "callsonly" || kind == "mapwritesonly" {
+	if kind == "callsonly" || kind == "mapwritesonly" || kind == "fieldwritesonly" {
 		sep = ":"
 	}
 	i := strings.Index(rest, sep)
@@ -153,6 +157,42 @@ func (p *Prog) StaticObligations(prop string) []*Obligation {
 			for n := range seenF {
 				got = append(got, n)
 			}
+		case "fieldwritesonly":
+			// Subject "Type.field": functions of the declaring package that store to that field; other
+			// packages of the repository must not mention the field on the left of an assignment at all.
+			parts := strings.SplitN(d.Subject, ".", 2)
+			if len(parts) != 2 {
+				ok = false
+				break
+			}
+			seenF := map[string]bool{}
+			for key, f := range p.Funcs {
+				if !strings.HasPrefix(key, d.Pkg+"::") || f.Blocks == nil {
+					continue
+				}
+				for _, b := range f.Blocks {
+					for _, in := range b.Instrs {
+						st, isSt := in.(*ssa.Store)
+						if !isSt {
+							continue
+						}
+						fa, isFA := st.Addr.(*ssa.FieldAddr)
+						if !isFA {
+							continue
+						}
+						t, stt := structOf(fa.X.Type())
+						if stt != nil && typeBase(t) == parts[0] && stt.Field(fa.Field).Name() == parts[1] {
+							seenF[FuncName(f)] = true
+						}
+					}
+				}
+			}
+			for n := range seenF {
+				got = append(got, n)
+			}
+			for _, hit := range p.foreignFieldWrites(d.Pkg, parts[1]) {
+				got = append(got, "foreign:"+hit)
+			}
 		case "callsonly":
 			f := p.Funcs[d.Pkg+"::"+d.Subject]
 			if f == nil || f.Blocks == nil {
@@ -219,4 +259,40 @@ func storedToGlobal(mm *ssa.MakeMap, name string) bool {
 		}
 	}
 	return false
+}
+
+// foreignFieldWrites scans the non-test Go files of the repository outside pkg for assignments to
+// (or composite-literal initialisations of) a field with the given name. Textual, conservative.
+func (p *Prog) foreignFieldWrites(pkg, field string) []string {
+	re := regexp.MustCompile(`(\.` + regexp.QuoteMeta(field) + `\s*(=[^=]|\+\+|--|[-+|&^]=))|(\b` + regexp.QuoteMeta(field) + `\s*:[^=])`)
+	own := filepath.Join(p.RepoDir, strings.TrimPrefix(pkg, ModPath+"/"))
+	var hits []string
+	filepath.WalkDir(p.RepoDir, func(path string, de fs.DirEntry, err error) error {
+		if err != nil {
+			return nil
+		}
+		if de.IsDir() {
+			if de.Name() == ".git" || path == own {
+				return filepath.SkipDir
+			}
+			return nil
+		}
+		if !strings.HasSuffix(path, ".go") || strings.HasSuffix(path, "_test.go") {
+			return nil
+		}
+		b, err := os.ReadFile(path)
+		if err != nil {
+			return nil
+		}
+		for i, line := range strings.Split(string(b), "\n") {
+			if t := strings.TrimSpace(line); strings.HasPrefix(t, "//") {
+				continue
+			}
+			if re.MatchString(line) {
+				hits = append(hits, fmt.Sprintf("%s:%d", strings.TrimPrefix(path, p.RepoDir+"/"), i+1))
+			}
+		}
+		return nil
+	})
+	return hits
 }
